@@ -60,6 +60,7 @@ _ERASE = re.compile(
 _PRESERVE = re.compile(
     r"(result::Result::<T, E>::(map_err|map|as_ref|as_mut|inspect_err|or_else)|ErrorContextExt::context|"
     r"option::Option::<T>::(map|as_ref|as_mut|cloned|copied|inspect)|clone::Clone::clone)$")
+_SHORT_CIRCUIT = re.compile(r"iter::Iterator>?::(try_fold|try_for_each)$")
 _OK_OR = re.compile(r"option::Option::<T>::(ok_or|ok_or_else)$")
 _TO_OPT = re.compile(r"result::Result::<T, E>::ok$")
 _IS = {
@@ -448,6 +449,9 @@ class EGraph:
                 if sub is not None:
                     return self.prov_local(sub, 0)
             if "fn" in o:
+                k = o["fn"].get("rkey") or o["fn"].get("key")
+                if k and k in self.prog.bodies:
+                    return ("closure", k, ())      # a crate-local fn item used as a value: a closure without captures
                 return ("fn", o["fn"].get("rpath") or o["fn"]["path"])
             if "int" in o:
                 return ("const", o["int"])
@@ -1055,8 +1059,19 @@ class Product:
                         outs.append((m, tags, ()))
                 else:
                     self._call_event(inst, n, t, tags)
+                    short = bool(t.get("callee")) and bool(_SHORT_CIRCUIT.search(t["callee"]["path"])) and bool(g.closure_insts.get(n))
                     for m, lab in g.succ[n]:
-                        outs.append((m, tags, ()))
+                        if short and not (lab and lab[0] == "cl_enter"):
+                            # try_fold / try_for_each over zero elements: `try { init }`
+                            nt = dict(tags)
+                            dslot = g.slot_of(inst, t["dest"])
+                            if dslot is not None:
+                                self._kill(nt, dslot)
+                                nt[dslot] = ("Ok" if "Result<" in t.get("dest_ty", "") else ("Some" if "Option<" in t.get("dest_ty", "") else "Continue"),
+                                             ("call", n))
+                            outs.append((m, nt, ()))
+                        else:
+                            outs.append((m, tags, ()))
             elif k == "return":
                 for m, lab in g.succ[n]:
                     if lab and lab[0] == "ret":
@@ -1080,6 +1095,25 @@ class Product:
                     else:
                         # closure maybe-call return: forget the closure's locals
                         nt = {s: v for s, v in tags.items() if s[0] != inst.id}
+                        cn = lab[1] if lab and lab[0] == "cl_ret" else (inst.parent and (inst.parent.id, inst.call_bb))
+                        ct = g.term(cn) if cn and cn in g.closure_insts else None
+                        if ct is not None and ct.get("callee") and _SHORT_CIRCUIT.search(ct["callee"]["path"]):
+                            # try_fold / try_for_each: a closure result that is Err/None/Break ends the iteration and IS the result;
+                            # an Ok result either feeds the next call or is the result
+                            r = tags.get((inst.id, 0, ()))
+                            failed = r is not None and r[0] in ("Err", "None", "Break")
+                            if lab and lab[0] == "cl_again":
+                                if failed:
+                                    continue
+                            elif lab and lab[0] == "cl_ret":
+                                pinst = g.inst(cn)
+                                dslot = g.slot_of(pinst, ct["dest"])
+                                if dslot is not None and r is not None:
+                                    self._kill(nt, dslot)
+                                    nt[dslot] = r
+                                    for rel, v in self._subtags(tags, (inst.id, 0, ())):
+                                        if len(dslot[2]) + len(rel) <= 3:
+                                            nt[(dslot[0], dslot[1], dslot[2] + rel)] = v
                         outs.append((m, nt, ()))
             elif k == "switch":
                 outs = self._switch(inst, n, t, tags)
